@@ -117,3 +117,13 @@ Definition hung_with_error {H} (y : sys H) : Prop :=
   pend y <> None /\ rexn (re (core y)) <> None /\ wt (re (core y)) = WWaiting.
 Lemma rewait_witness : hung_with_error (fst (toy_run 100 (toy_init 64 true 8190 8190 125 true PChunked 5 1) w_rewait_events)).
 Proof. vm_compute. repeat split; discriminate. Qed.
+
+(* the 9-byte toy gzip bomb (600 bytes decoded) with Content-Length framing, read_bufsize 1, on a transport
+   without flow control: the peer closes while the parser holds pending input; connection_lost pauses again,
+   drops the parser, and the consumer gets 4 bytes and then RuntimeError("Connection closed.") *)
+Definition w_lost_events : list event := [EvData w_bomb; EvClose; EvOp OpReadAny; EvOp OpReadAny].
+Definition lost_at_close (r : toy_sys * list obs) : Prop :=
+  last (snd r) ONone = ORes (RErr EConnClosed) /\ lenN (delivered (re (core (fst r)))) = 4 /\
+  reof (re (core (fst r))) = false /\ has_more (pr (core (fst r))) = true.
+Lemma lost_witness : lost_at_close (toy_run 1000 (toy_init 1 true 8190 8190 125 false PLength 9 1) w_lost_events).
+Proof. vm_compute. repeat split. Qed.
